@@ -12,7 +12,7 @@ use serde_json::{json, Value};
 pub static ENGINE: Engine = Engine {
     prop: "C08",
     level: "exploration",
-    rule: "every string <= L chars over a 16-char lexical alphabet (lexer vs reference scanner); every token sequence <= N over the full token alphabet incl. every alias spelling (parser vs reference LL(1) parser: Err vs Ok(tree), trees compared structurally by variable name); every grammar sentence with <= K AST nodes in three print styles plus EVERY one-token deletion/insertion/replacement of it. distinct = distinct syntax trees accepted by both sides + distinct token lists produced by the lexer sweep",
+    rule: "every string <= L chars over a 16-char lexical alphabet (lexer vs reference scanner); every token sequence <= N over the full token alphabet incl. every alias spelling (parser vs reference LL(1) parser: Err vs Ok(tree), trees compared structurally by variable name); every grammar sentence with <= K AST nodes and every sentence of the depth-2 family (every node kind in every child position, 2 300 trees) in three print styles plus EVERY one-token deletion/insertion/replacement of it. distinct = distinct syntax trees accepted by both sides + distinct token lists produced by the lexer sweep",
     assumptions: &[
         "the reference lexer/parser (harness/src/refl.rs, written from README and the property text) is the grammar",
         "numbers beyond usize::MAX may be rejected (never accepted with another value)",
@@ -324,6 +324,15 @@ fn grammar_sweep(ctx: &mut Ctx) {
             }
         }
     }
+    // every node kind in every child position (depth-bounded family), with mutations
+    for a in enumerate::depth2_family() {
+        idx += 1;
+        if ctx.mine(idx) {
+            check_sentence(ctx, &a, idx);
+            ctx.count("sentences_depth2_family", 1);
+            mutate_sentence(ctx, &a, &red);
+        }
+    }
     // syntactic alphabet, deeper
     let mut g = Gen::new(syntactic_alpha());
     let upto = if ctx.thorough() { 5 } else { 4 };
@@ -338,9 +347,9 @@ fn grammar_sweep(ctx: &mut Ctx) {
         for a in todo.drain(..) {
             check_sentence(ctx, &a, idx);
             ctx.count("sentences_syntactic_alphabet", 1);
-            // quick tier: the largest sentences are mutated with one representative per
-            // grammar class; the thorough tier uses all 33 token kinds throughout
-            if size == upto && !ctx.thorough() {
+            // the largest sentences of each tier are mutated with one representative per grammar
+            // class (19 kinds), all smaller ones with all 33 token kinds
+            if size == upto {
                 mutate_sentence(ctx, &a, &red);
             } else {
                 mutate_sentence(ctx, &a, &kinds);
